@@ -73,6 +73,7 @@ class MarginalRayHeightSolve(BaseSolve):
         # slope behind the previous surface
         offset = ((self.height - ya[self.surface_idx])
                   / ua[self.surface_idx - 1])
+        offset = float(offset[0])
 
         # shift current surface and all subsequent surfaces
         for surface in self.optic.surface_group.surfaces[self.surface_idx:]:
